@@ -343,6 +343,86 @@ func c01Run(c *Ctx) {
 		}
 	}
 
+	// ---- S4: long expressions (chains, balanced trees, nests) of up to 129 (thorough 1025) leaves
+	sizes := append([]int{}, longSizes...)
+	if thorough {
+		sizes = append(sizes, longSizesThorough...)
+	}
+	const k4 = 6
+	atoms4 := distinctAtoms[:k4]
+	var lists4 [][]string
+	lists4 = append(lists4, append([]string{}, atoms4...))
+	for i := range atoms4 {
+		var l []string
+		for j, a := range atoms4 {
+			if j != i {
+				l = append(l, a)
+			}
+		}
+		lists4 = append(lists4, l, []string{atoms4[i]})
+	}
+	c.Bound("S4", map[string]any{"sizes": sizes, "atoms": atoms4, "families": "right/left chains and balanced trees of AND / OR, alternating right and left nests", "allowed": "all, all-but-one, singletons", "renderings": 3})
+	s4single := directSingle(atoms4)
+	for _, n := range sizes {
+		lt := LongTrees(n, k4)
+		var names []string
+		for name := range lt {
+			names = append(names, name)
+		}
+		sortStrings(names)
+		for _, name := range names {
+			ti++
+			if !c.Mine(ti) {
+				continue
+			}
+			if c.Expired() {
+				return
+			}
+			t := lt[name]
+			texts := []string{t.RenderFull(atoms4, true)}
+			for _, x := range []string{t.RenderMin(atoms4), t.RenderAssoc(atoms4)} {
+				dup := false
+				for _, y := range texts {
+					if x == y {
+						dup = true
+					}
+				}
+				if !dup {
+					texts = append(texts, x)
+				}
+			}
+			c.Inc("trees")
+			for _, expr := range texts {
+				if !c.Begin(fmt.Sprintf("long %s n=%d", name, n)) {
+					continue
+				}
+				for _, l := range lists4 {
+					msg, skip, truth, want := c01Check(t, atoms4, expr, l, s4single)
+					c.Inc("states")
+					c.Inc("transitions")
+					c.Inc("evaluations")
+					if skip != "" {
+						c.Inc("skipped_" + strings.ReplaceAll(skip, " ", "_"))
+						continue
+					}
+					c.Inc("traces")
+					if truth != 0 && len(l) < k4 {
+						c.Inc("nontrivial")
+					}
+					if want {
+						c.Outcome("satisfied")
+					} else {
+						c.Outcome("unsatisfied")
+					}
+					if msg != "" {
+						c.Report(Violation{Kind: "c01.tree", Class: "long:" + name, Key: fmt.Sprintf("long:%s:n=%d:%s", name, n, strings.Join(l, ",")), Msg: fmt.Sprintf("%s with %d leaves: %s", name, n, first(msg, 400)), Size: 1000 + n,
+							Case: mustJSON(c01Case{Expr: expr, Allowed: l, Atoms: atoms4, Tree: encTree(t), Formula: name})})
+					}
+				}
+			}
+		}
+	}
+
 	// ---- S2
 	atoms := c01Rich
 	single := directSingle(atoms)
